@@ -588,7 +588,7 @@ func (fr *Frame) rangeOverFunc(st *State, it Term, mc *ssa.MakeClosure, yf *ssa.
 		vc.havocAll(hs)
 	} else {
 		var sl []string
-		for s := range ef.sorts {
+		for _, s := range sortedKeys(ef.sorts) {
 			sl = append(sl, string(s))
 		}
 		sort.Strings(sl)
@@ -615,14 +615,14 @@ func (fr *Frame) rangeOverFunc(st *State, it Term, mc *ssa.MakeClosure, yf *ssa.
 			hs.mbase = vc.freshName("ep")
 			hs.lazyParents, hs.lazySels = nil, nil
 		} else {
-			for kv := range ef.mapKV {
+			for _, kv := range sortedKV(ef.mapKV) {
 				vc.havocMapsOfSorts(hs, kv[0], kv[1])
 			}
 		}
 		na := vc.Fresh("alloc", SInt)
 		hs.assume(Ge(na, hs.alloc))
 		hs.alloc = na
-		for g := range ef.ghostVars {
+		for _, g := range sortedKeys(ef.ghostVars) {
 			if gv := vc.ctx.ghostVars[g]; gv != nil {
 				vc.havocGhostVar(hs, gv)
 			}
@@ -695,7 +695,7 @@ func (fr *Frame) yieldEffects(yf *ssa.Function, mc *ssa.MakeClosure, binds []Ter
 				leaf := map[Sort]bool{}
 				vc.leafSorts(U(x.Addr.Type()).(*types.Pointer).Elem(), leaf)
 				if a, ok := fv[x.Addr]; ok && vc.tt.Slots(U(x.Addr.Type()).(*types.Pointer).Elem()) == 1 {
-					for s := range leaf {
+					for _, s := range sortedKeys(leaf) {
 						ef.exact[s] = append(ef.exact[s], a)
 						if _, has := ef.sorts[s]; !has {
 							ef.sorts[s] = nil
@@ -704,7 +704,7 @@ func (fr *Frame) yieldEffects(yf *ssa.Function, mc *ssa.MakeClosure, binds []Ter
 					continue
 				}
 				if _, isAlloc := x.Addr.(*ssa.Alloc); isAlloc {
-					for s := range leaf {
+					for _, s := range sortedKeys(leaf) {
 						ef.fresh[s] = true
 						if _, has := ef.sorts[s]; !has {
 							ef.sorts[s] = nil
@@ -714,7 +714,7 @@ func (fr *Frame) yieldEffects(yf *ssa.Function, mc *ssa.MakeClosure, binds []Ter
 				}
 				if ia, ok := x.Addr.(*ssa.IndexAddr); ok {
 					if _, isAlloc := ia.X.(*ssa.Alloc); isAlloc {
-						for s := range leaf {
+						for _, s := range sortedKeys(leaf) {
 							ef.fresh[s] = true
 							if _, has := ef.sorts[s]; !has {
 								ef.sorts[s] = nil
@@ -723,7 +723,7 @@ func (fr *Frame) yieldEffects(yf *ssa.Function, mc *ssa.MakeClosure, binds []Ter
 						continue
 					}
 				}
-				for s := range leaf {
+				for _, s := range sortedKeys(leaf) {
 					ef.unk[s] = true
 					if _, has := ef.sorts[s]; !has {
 						ef.sorts[s] = nil
@@ -734,7 +734,7 @@ func (fr *Frame) yieldEffects(yf *ssa.Function, mc *ssa.MakeClosure, binds []Ter
 			case *ssa.Alloc:
 				leaf := map[Sort]bool{}
 				vc.leafSorts(U(x.Type()).(*types.Pointer).Elem(), leaf)
-				for s := range leaf {
+				for _, s := range sortedKeys(leaf) {
 					ef.fresh[s] = true
 					if _, has := ef.sorts[s]; !has {
 						ef.sorts[s] = nil
@@ -744,7 +744,7 @@ func (fr *Frame) yieldEffects(yf *ssa.Function, mc *ssa.MakeClosure, binds []Ter
 				if srt, err := vc.tt.SortOf(x.X.Type()); err == nil && srt != SRef {
 					leaf := map[Sort]bool{}
 					vc.leafSorts(x.X.Type(), leaf)
-					for s := range leaf {
+					for _, s := range sortedKeys(leaf) {
 						ef.fresh[s] = true
 						if _, has := ef.sorts[s]; !has {
 							ef.sorts[s] = nil
@@ -760,7 +760,7 @@ func (fr *Frame) yieldEffects(yf *ssa.Function, mc *ssa.MakeClosure, binds []Ter
 					case "append":
 						leaf := map[Sort]bool{}
 						vc.leafSorts(U(cc.Args[0].Type()).(*types.Slice).Elem(), leaf)
-						for s := range leaf {
+						for _, s := range sortedKeys(leaf) {
 							ef.unk[s] = true
 							if _, has := ef.sorts[s]; !has {
 								ef.sorts[s] = nil
@@ -769,7 +769,7 @@ func (fr *Frame) yieldEffects(yf *ssa.Function, mc *ssa.MakeClosure, binds []Ter
 					case "copy":
 						leaf := map[Sort]bool{}
 						vc.leafSorts(U(cc.Args[0].Type()).(*types.Slice).Elem(), leaf)
-						for s := range leaf {
+						for _, s := range sortedKeys(leaf) {
 							ef.unk[s] = true
 							if _, has := ef.sorts[s]; !has {
 								ef.sorts[s] = nil
@@ -1101,7 +1101,7 @@ func (vc *VC) havocModifies(st *State, env *SpecEnv, mods []*Expr, hints map[str
 			}
 			cond = And(Eq(Rid(q), Rid(addr)), Le(Roff(addr), Roff(q)), Lt(Roff(q), Add(Roff(addr), size))).S
 		}
-		for s := range leaf {
+		for _, s := range sortedKeys(leaf) {
 			per[s] = append(per[s], cond)
 		}
 	}
@@ -1124,7 +1124,7 @@ func (vc *VC) havocModifies(st *State, env *SpecEnv, mods []*Expr, hints map[str
 						slots := vc.tt.Slots(pt.Elem())
 						addr := IRefOf(x.T)
 						cond := And(Eq(Rid(q), Rid(addr)), Le(Roff(addr), Roff(q)), Lt(Roff(q), Add(Roff(addr), IntLit(slots)))).S
-						for s := range leaf {
+						for _, s := range sortedKeys(leaf) {
 							per[s] = append(per[s], cond)
 						}
 						continue
@@ -1170,7 +1170,7 @@ func (vc *VC) havocModifies(st *State, env *SpecEnv, mods []*Expr, hints map[str
 		addRegion(addr, t, Term{})
 	}
 	if len(wholeObjects) > 0 {
-		for s := range vc.heapReg {
+		for _, s := range sortedKeys(vc.heapReg) {
 			for _, r := range wholeObjects {
 				per[s] = append(per[s], Eq(Rid(q), r).S)
 			}
@@ -1200,7 +1200,7 @@ func (vc *VC) copyRange(st *State, elem types.Type, dst, src Term, n Term) {
 	k := vc.tt.Slots(elem)
 	size := Mul(n, IntLit(k))
 	var sl []string
-	for s := range leaf {
+	for _, s := range sortedKeys(leaf) {
 		sl = append(sl, string(s))
 	}
 	sort.Strings(sl)
@@ -1348,7 +1348,7 @@ func (fr *Frame) builtin(st *State, b *ssa.Builtin, cc *ssa.CallCommon, args []T
 		// merge the two
 		leaf := map[Sort]bool{}
 		vc.leafSorts(elem, leaf)
-		for srt := range leaf {
+		for _, srt := range sortedKeys(leaf) {
 			vc.setHeap(st, srt, Ite(fits, vc.heap(inPlace, srt), vc.heap(re, srt)))
 		}
 		st.alloc = vc.Define("alloc", Ite(fits, inPlace.alloc, re.alloc))
@@ -1398,7 +1398,7 @@ func (fr *Frame) builtin(st *State, b *ssa.Builtin, cc *ssa.CallCommon, args []T
 			size := Mul(SLen(args[0]), IntLit(vc.tt.Slots(elem)))
 			q := Term{"q!r", SRef}
 			inDst := And(Eq(Rid(q), Rid(dst)), Le(Roff(dst), Roff(q)), Lt(Roff(q), Add(Roff(dst), size)))
-			for srt := range leaf {
+			for _, srt := range sortedKeys(leaf) {
 				z, err := vc.zeroOfSort(srt)
 				if err != nil {
 					return nil, err
@@ -1454,7 +1454,7 @@ func (vc *VC) havocRegion(st *State, elem types.Type, dst Term, n Term) {
 	vc.leafSorts(elem, leaf)
 	k := vc.tt.Slots(elem)
 	size := Mul(n, IntLit(k))
-	for s := range leaf {
+	for _, s := range sortedKeys(leaf) {
 		old := vc.heap(st, s)
 		q := Term{"q!r", SRef}
 		inDst := And(Eq(Rid(q), Rid(dst)), Le(Roff(dst), Roff(q)), Lt(Roff(q), Add(Roff(dst), size)))
@@ -1472,7 +1472,7 @@ func (fr *Frame) callEffects(ci ssa.CallInstruction, li *loopInfo, ef *effects) 
 	markUnk := func(t types.Type) {
 		leaf := map[Sort]bool{}
 		vc.leafSorts(t, leaf)
-		for s := range leaf {
+		for _, s := range sortedKeys(leaf) {
 			ef.unk[s] = true
 			if _, has := ef.sorts[s]; !has {
 				ef.sorts[s] = nil
@@ -1520,7 +1520,7 @@ func (fr *Frame) callEffects(ci ssa.CallInstruction, li *loopInfo, ef *effects) 
 			leaf := map[Sort]bool{}
 			vc.leafSorts(elem, leaf)
 			root, ok := fr.rootOf(cc.Args[0], li)
-			for s := range leaf {
+			for _, s := range sortedKeys(leaf) {
 				if ok {
 					ef.sorts[s] = append(ef.sorts[s], root)
 				} else {
@@ -1648,7 +1648,7 @@ func (fr *Frame) contractCallEffects(c *FuncContract, sig *types.Signature, recv
 						leaf := map[Sort]bool{}
 						vc.leafSorts(pt.Elem(), leaf)
 						root, rok := fr.rootOf(mi.X, li)
-						for s := range leaf {
+						for _, s := range sortedKeys(leaf) {
 							switch {
 							case rok && !root.Valid():
 								ef.fresh[s] = true
@@ -1682,7 +1682,7 @@ func (fr *Frame) contractCallEffects(c *FuncContract, sig *types.Signature, recv
 		// *p with a single-slot pointee and a loop-invariant p: the exact address
 		if m.Kind == EUnary && m.Op == "*" && m.Args[0].Kind == EIdent && vc.tt.Slots(t) == 1 && rok && root.Valid() {
 			if pv, err := fr.value(argVals[idx]); err == nil && pv.Sort == SRef {
-				for s := range leaf {
+				for _, s := range sortedKeys(leaf) {
 					ef.exact[s] = append(ef.exact[s], pv)
 					if _, has := ef.sorts[s]; !has {
 						ef.sorts[s] = nil
@@ -1700,7 +1700,7 @@ func (fr *Frame) contractCallEffects(c *FuncContract, sig *types.Signature, recv
 						for fi := 0; fi < stt.NumFields(); fi++ {
 							if stt.Field(fi).Name() == m.Op {
 								addr := RefAdd(pv, IntLit(vc.tt.FieldOffset(stt, fi)))
-								for s := range leaf {
+								for _, s := range sortedKeys(leaf) {
 									ef.exact[s] = append(ef.exact[s], addr)
 									if _, has := ef.sorts[s]; !has {
 										ef.sorts[s] = nil
@@ -1716,7 +1716,7 @@ func (fr *Frame) contractCallEffects(c *FuncContract, sig *types.Signature, recv
 				}
 			}
 		}
-		for s := range leaf {
+		for _, s := range sortedKeys(leaf) {
 			switch {
 			case rok && !root.Valid():
 				ef.fresh[s] = true
@@ -1743,7 +1743,7 @@ func (fr *Frame) contractEffects(c *FuncContract, ef *effects) {
 		ef.ghostVars[c.PkgPath+"::"+gs.Var] = true
 	}
 	if c.Logged {
-		for n := range fr.vc.ctx.ghostVars {
+		for _, n := range sortedKeys(fr.vc.ctx.ghostVars) {
 			if n == c.PkgPath+"::calls_"+c.LogName || strings.HasPrefix(n, c.PkgPath+"::arg_"+c.LogName+"_") {
 				ef.ghostVars[n] = true
 			}
@@ -1793,7 +1793,7 @@ func (fr *Frame) funcEffects(fn *ssa.Function, ef *effects, depth int) {
 			case *ssa.Store:
 				leaf := map[Sort]bool{}
 				vc.leafSorts(U(x.Addr.Type()).(*types.Pointer).Elem(), leaf)
-				for s := range leaf {
+				for _, s := range sortedKeys(leaf) {
 					ef.unk[s] = true
 					if _, has := ef.sorts[s]; !has {
 						ef.sorts[s] = nil
@@ -1808,7 +1808,7 @@ func (fr *Frame) funcEffects(fn *ssa.Function, ef *effects, depth int) {
 				ef.alloc = true
 				leaf := map[Sort]bool{}
 				vc.leafSorts(U(x.Type()).(*types.Pointer).Elem(), leaf)
-				for s := range leaf {
+				for _, s := range sortedKeys(leaf) {
 					ef.unk[s] = true
 					if _, has := ef.sorts[s]; !has {
 						ef.sorts[s] = nil
@@ -1818,7 +1818,7 @@ func (fr *Frame) funcEffects(fn *ssa.Function, ef *effects, depth int) {
 				ef.alloc = true
 				leaf := map[Sort]bool{}
 				vc.leafSorts(U(x.Type()).(*types.Slice).Elem(), leaf)
-				for s := range leaf {
+				for _, s := range sortedKeys(leaf) {
 					ef.unk[s] = true
 					if _, has := ef.sorts[s]; !has {
 						ef.sorts[s] = nil
@@ -1846,7 +1846,7 @@ func (fr *Frame) funcEffects(fn *ssa.Function, ef *effects, depth int) {
 						ef.alloc = true
 						leaf := map[Sort]bool{}
 						vc.leafSorts(U(cc.Args[0].Type()).(*types.Slice).Elem(), leaf)
-						for s := range leaf {
+						for _, s := range sortedKeys(leaf) {
 							ef.unk[s] = true
 							if _, has := ef.sorts[s]; !has {
 								ef.sorts[s] = nil
